@@ -18,3 +18,7 @@ VF_API void vf_C1pf(double eps, double* c) { Geodesic::C1pf(eps, c); }
 VF_API void vf_C2f(double eps, double* c) { Geodesic::C2f(eps, c); }
 VF_API double vf_SinCosSeries(int sinp, double sinx, double cosx, const double* c, int n) { return Geodesic::SinCosSeries(sinp != 0, sinx, cosx, c, n); }
 VF_API double vf_c2(double a, double f) { Geodesic g(a, f); return g._c2; }
+// replay helper on the real code: the inner GenInverse overload (sines and cosines of the azimuths)
+VF_API double vf_geninverse(double a, double f, double lat1, double lon1, double lat2, double lon2, double* out) {
+  Geodesic g(a, f); return g.GenInverse(lat1, lon1, lat2, lon2, Geodesic::DISTANCE | Geodesic::AZIMUTH | Geodesic::REDUCEDLENGTH | Geodesic::GEODESICSCALE, out[0], out[1], out[2], out[3], out[4], out[5], out[6], out[7], out[8]);
+}
